@@ -144,6 +144,9 @@ func Generate(profile string, seed uint64, tier string) (*Scenario, error) {
 		genC18(g, sc, tier)
 	case "C20":
 		sc.Property = "C20"
+		if g.P(0.3) {
+			sc.Knobs["provisionedID"] = 1 // the stores carry names given by an operator instead of generated numbers
+		}
 		c := g.baseStoreCfg(tier)
 		c.PRestart, c.PNested = 0, 0
 		c.NOps = g.Range(3, 12)
